@@ -9,6 +9,7 @@ import (
 	"os"
 	"runtime"
 	"strings"
+	"syscall"
 	"time"
 
 	"github.com/gcash/bchd/chaincfg"
@@ -187,10 +188,15 @@ func opRobust(_ *HState, a Event) Event {
 	for rep := 0; rep < 3; rep++ {
 		var m0, m1 runtime.MemStats
 		runtime.ReadMemStats(&m0)
-		t0 := time.Now()
+		t0, c0 := time.Now(), procCPU()
 		var err error
 		p, msg, hung := guardT(10*time.Second, func() { err = fn(in) })
 		d := time.Since(t0)
+		// the bound is on work done: on a loaded machine the wall clock also counts the time the process was not
+		// running, so a repetition costs min(wall, CPU time consumed by the process); hangs have their own deadline
+		if c := procCPU() - c0; c < d {
+			d = c
+		}
 		runtime.ReadMemStats(&m1)
 		if hung {
 			e["outcome"], e["detail"] = "hang", "no result within 10 s"
@@ -215,6 +221,14 @@ func opRobust(_ *HState, a Event) Event {
 	}
 	e["cpu_us"], e["alloc_kib"] = int(best/time.Microsecond), int(alloc/1024)
 	return e
+}
+
+func procCPU() time.Duration {
+	var ru syscall.Rusage
+	if syscall.Getrusage(syscall.RUSAGE_SELF, &ru) != nil {
+		return time.Duration(1 << 62)
+	}
+	return time.Duration(ru.Utime.Nano() + ru.Stime.Nano())
 }
 
 func robust(c *Ctx, entry string, in []byte, n int) {
